@@ -112,6 +112,8 @@ class Repo:
         for nm_, fs_ in _simple.items():
             if len(fs_) == 1 and fs_[0].cls is None and _inl.never_returns_none(fs_[0].node):
                 _inl.NONNULL_REPO_FUNCTIONS.add(nm_)
+        _inl.NONNULL_ATTRIBUTES.clear()
+        _inl.NONNULL_ATTRIBUTES.update(_inl.nonnull_attributes(self))
         self._inline_new_helpers()
         if not os.environ.get("VERIF_NO_INLINE"):
             from .normalize import apply_synonyms
